@@ -19,6 +19,8 @@ compute_expected_key in either order with its own key (AES key sizes mixed, the 
 traces; the model is history-free, so every step is compared exactly as a fresh object would be.
 Count boundaries (aes_sf_counts / des_sf_counts): one call on 255 .. 4097 traces made of a few distinct rows (run-length encoded,
 expanded inside Coq); sample of entries + first / last trace in Coq, the whole array against the validated per-row planes in Python.
+Several objects (aes_sf_objects / des_sf_objects): 2..4 objects of the same class built FIRST with different guesses / words / tags, then
+called in another order, each twice; every output compared with the spec for its own object's configuration.
 """
 import numpy as np
 
@@ -1245,5 +1247,189 @@ class DesBigKind(_BigKind):
     def _guess_mode(self, k, T):
         return 'pick' if k % 4 == 3 else 'default'
 
+# ------------------------------------------------------------------------------------------------ several objects of one class
+class _ObjectsKind(Kind):
+    """2..4 objects of the SAME class are constructed FIRST (different guesses: subsets / permutations / dtypes / range objects,
+    different words, default or custom tags), then called in an order different from the construction order (newest first, then
+    interleaved, every object twice), each call with its own key and data batch.  Every output (re-exported after all later calls)
+    and every compute_expected_key is compared with the spec for the configuration of ITS OWN object: one single-call record per
+    call (Coq: forallb of the single-call checks)."""
+    header = HDR
+    shard = 6
+    reuse = None
 
-KINDS = [AesSfKind(), DesSfKind(), WordsKind(), AesReuseKind(), DesReuseKind(), AesBigKind(), DesBigKind()]
+    def gen(self, rng, tier):
+        k = 0
+        reps = 1 if tier == 'quick' else 8
+        for rep in range(reps):
+            for ns in ('encrypt', 'decrypt'):
+                for name in self.classes[ns]:
+                    yield self._objects(rng, ns, name, k)
+                    k += 1
+
+    def _objects(self, rng, ns, name, k):
+        n = 2 + k % 3
+        objs = []
+        for j in range(n):
+            c = self.base._case(rng, ns, name, self._klen(k + j), 5 * k + 7 * j + 2, which=3)
+            o = {'words': c['words'], 'guesses': c['guesses'], 'guess_form': c['guess_form'], 'custom_tag': (k + j) % 3 == 1}
+            if (k + j) % 4 == 3:                   # a range object with a step
+                r = stepped_ranges(self.top)[(k + j) % 9]
+                o.update(guesses=list(range(*r)), guess_range=list(r), guess_form='rangeobj')
+                if len(o['guesses']) > 40:         # keep the literal small: such an object selects one word
+                    o['words'] = {'form': 'int', 'val': (k + j) % self.nw}
+            objs.append(o)
+        # order of the calls: newest object first, then oldest to newest again (every object twice, older after newer, interleaved)
+        order = list(reversed(range(n))) + ([1, 0] + list(range(2, n)) if k % 2 else list(range(n)))
+        calls = []
+        for i, j in enumerate(order):
+            c = self.base._case(rng, ns, name, self._klen(k + i), 3 * k + i, T=1 + (k + i) % 3, words=objs[j]['words'], which=(3, 0, 3, 1)[i % 4])
+            calls.append({'obj': j, 'key': c['key'], 'inp': c['inp'], 'dtype': c['dtype']})
+        return {'ns': ns, 'name': name, 'objects': objs, 'calls': calls}
+
+    def _call_case(self, case, cl):
+        o = case['objects'][cl['obj']]
+        return {'ns': case['ns'], 'name': case['name'], 'key': cl['key'], 'inp': cl['inp'], 'words': o['words'], 'guesses': o['guesses'],
+                'guess_form': o['guess_form'], 'guess_range': o.get('guess_range'), 'dtype': cl['dtype'], 'custom_tag': o['custom_tag']}
+
+    def run(self, case):
+        from scared.selection_functions.base import SelectionFunctionError
+        ns, name = case['ns'], case['name']
+        mod, cipher, width = self.reuse._env(ns)
+        src = self.classes[ns][name]
+        tag = spec_tag(ns, src)
+        built = []
+        for o in case['objects']:                           # ALL objects exist before the first call
+            kw = {'guesses': py_guesses(o)}
+            if o['words']['form'] != 'none':
+                kw['words'] = py_words(o['words'])
+            tagname, keyname = tag, 'key'
+            if o['custom_tag']:
+                kw[tag + '_tag'] = tagname = 'my_' + tag
+                kw['key_tag'] = keyname = 'my_key'
+            built.append((getattr(mod, name)(**kw), tagname, keyname))
+        outs, held = [], []
+        for cl in case['calls']:
+            sf, tagname, keyname = built[cl['obj']]
+            key = np.array(cl['key'], dtype='uint8')
+            inp = np.array(cl['inp'], dtype='uint8')
+            T = inp.shape[0]
+            out = cipher(inp, key).reshape(T, width)
+            pt, ct = (inp, out) if ns == 'encrypt' else (out, inp)
+            meta = {'plaintext': pt.astype(cl['dtype']), 'ciphertext': ct.astype(cl['dtype']), keyname: key}
+            if tagname != tag:
+                meta[tagname] = meta[tag]
+                meta[tag] = np.bitwise_xor(meta[tag], 0x5A).astype(cl['dtype'])
+                meta['key'] = np.bitwise_xor(key, 0xA5)
+            o = {'out': out.tolist()}
+            res = None
+            try:
+                res = sf(**meta)
+                o.update(_mk_words_obs(res))
+            except SelectionFunctionError as e:
+                o['sferror'] = str(e)[:120]
+            ek = sf.compute_expected_key(**meta)
+            o['expkey'] = _flat(ek) if ek is not None and ek.shape == (self.nw,) else []
+            o['oracle'] = self.reuse._oracle_rows(ns, name, src, inp, key, out)
+            o['guesses_now'] = [int(v) for v in np.asarray(sf.guesses).tolist()]
+            held.append(res)
+            outs.append(o)
+        for o, res in zip(outs, held):                      # earlier results intact
+            if res is not None:
+                o['values_at_return'] = o['values']
+                o['values'] = _flat(res)
+        return {'calls': outs}
+
+    def coq(self, case, obs):
+        outs = obs.get('calls') or [{} for _ in case['calls']]
+        return '[' + '; '.join(self.base.coq(self._call_case(case, cl), o) for cl, o in zip(case['calls'], outs)) + ']'
+
+    def _describe(self, case, upto):
+        objs = '; '.join(f'o{j} = {case["name"]}({len(o["guesses"])} guesses {o["guesses"][:3]}.., words {o["words"].get("val", "all")}'
+                         f'{", custom tags" if o["custom_tag"] else ""})' for j, o in enumerate(case['objects']))
+        return objs + ' | then ' + ', '.join(f'o{cl["obj"]}({len(cl["inp"])} traces)' for cl in case['calls'][:upto + 1])
+
+    def oracle(self, case, obs):
+        if 'raised' in obs:
+            return f'{case["ns"]}.{case["name"]} raised {obs["raised"]}: {obs["msg"]}'
+        for i, (cl, o) in enumerate(zip(case['calls'], obs['calls'])):
+            cc = self._call_case(case, cl)
+            if o['guesses_now'] != cc['guesses']:
+                return f'call {i}: object o{cl["obj"]} no longer holds the guesses it was built with; {self._describe(case, i)}'
+            if 'values_at_return' in o and o['values_at_return'] != o['values']:
+                return f'the array returned by call {i} was overwritten by later calls; {self._describe(case, len(case["calls"]) - 1)}'
+            r = sf_oracle(cc, dict(o, unchanged=True, default_guesses=None), self.nw, self.top)
+            if r:
+                return f'call {i} (object o{cl["obj"]}) of [{self._describe(case, i)}]: {r}'
+        return None
+
+    def nontrivial(self, case, obs):
+        return 'calls' in obs
+
+    def features(self, case, obs):
+        return {'class': case['ns'] + '.' + case['name'], 'objects': len(case['objects']), 'calls': len(case['calls']),
+                'custom': sum(1 for o in case['objects'] if o['custom_tag'])}
+
+    def tags(self, case, obs):
+        return [self.name, case['ns'] + '.' + case['name']]
+
+    def sample(self, case, obs):
+        return {'case': {'ns': case['ns'], 'name': case['name'], 'objects': case['objects'][:2], 'order': [cl['obj'] for cl in case['calls']]},
+                'observed': {'calls': [{k: v for k, v in o.items() if k in ('shape', 'expkey', 'sferror')} for o in obs.get('calls', [])[:2]]}}
+
+    def shrink(self, case):
+        n = len(case['calls'])
+        if n > 1:
+            for i in range(n):
+                yield dict(case, calls=case['calls'][:i] + case['calls'][i + 1:])
+        # drop an object that is never called
+        used = {cl['obj'] for cl in case['calls']}
+        for j in range(len(case['objects'])):
+            if j not in used and len(case['objects']) > 1:
+                yield dict(case, objects=case['objects'][:j] + case['objects'][j + 1:],
+                           calls=[dict(cl, obj=cl['obj'] - (1 if cl['obj'] > j else 0)) for cl in case['calls']])
+        for i, cl in enumerate(case['calls']):
+            if len(cl['inp']) > 1:
+                yield dict(case, calls=[dict(c_, inp=c_['inp'][:1]) if q == i else c_ for q, c_ in enumerate(case['calls'])])
+
+
+class AesObjectsKind(_ObjectsKind):
+    name = 'aes_sf_objects'
+    case_type = 'list aes_sf_case'
+    check_fn = 'forallb aes_sf_check'
+    corr_fn = 'forallb aes_sf_corr'
+    explain_fn = 'map aes_sf_expected'
+    classes = AES_CLASSES
+    nw, top = 16, 256
+    rule = ('several objects, every public AES class: 2..4 objects of the SAME class built first (different guesses subsets / permutations / dtypes / '
+            'stepped ranges, words, default or custom tags), then called newest first and again interleaved (every object twice), each call with its '
+            'own key (key sizes mixed) and data; every output and expected key compared with the spec for its own object\'s configuration')
+
+    def __init__(self):
+        self.base = AesSfKind()
+        self.reuse = AesReuseKind()
+
+    def _klen(self, k):
+        return (16, 24, 32)[k % 3]
+
+
+class DesObjectsKind(_ObjectsKind):
+    name = 'des_sf_objects'
+    case_type = 'list des_sf_case'
+    check_fn = 'forallb des_sf_check'
+    corr_fn = 'forallb des_sf_corr'
+    explain_fn = 'map des_sf_expected'
+    classes = DES_CLASSES
+    nw, top = 8, 64
+    rule = ('several objects, every public DES class: 2..4 objects of the SAME class built first (different guesses, words, tags), then called in '
+            'an order different from construction, every object twice; every output compared with the spec for its own configuration')
+
+    def __init__(self):
+        self.base = DesSfKind()
+        self.reuse = DesReuseKind()
+
+    def _klen(self, k):
+        return 8
+
+
+KINDS = [AesSfKind(), DesSfKind(), WordsKind(), AesReuseKind(), DesReuseKind(), AesBigKind(), DesBigKind(), AesObjectsKind(), DesObjectsKind()]
